@@ -135,7 +135,7 @@ PROPS["C07"] = dict(
                  "Proofs/AnsC.v", "Tie/Entry.v", "Tie/CallGraph.v", "Props/C07.v", "Tie/Answers.v"],
     proof_targets=["Props/C07.vo"],
     props_module="Props.C07",
-    theorems=["C07_code_follows_the_lock_discipline", "C07_every_reader_takes_the_lock", "C07_lock_wrapper_is_faithful",
+    theorems=["C07_code_serialize_reads_under_the_guard", "C07_code_follows_the_lock_discipline", "C07_every_reader_takes_the_lock", "C07_lock_wrapper_is_faithful",
               "C07_code_hot_reload_waits_for_its_own_answer", "C07_no_torn_read", "C07_guard_pins",
               "C07_change_needs_write_lock", "C07_only_passes_write",
               "C07_update_happens_inside_the_callers_hot_reload",
@@ -228,7 +228,7 @@ PROPS["C17"] = dict(
     props_module="Props.C17",
     theorems=["C17_code_as_modelled", "C17_code_get_or_init_is_get_or_try_init", "C17_code_constructors_agree_with_the_once_state",
               "C17_initialised_once_all_schedules", "C17_each_dropped_exactly_once",
-              "C17_no_drop_path_never_drops_the_seed", "C17_nonvacuous"],
+              "C17_no_drop_path_never_drops_the_seed", "C17_nonvacuous", "C17_code_once_cell_is_the_sync_one"],
     engines=[("oncediff", [])],
     rule="oncediff: every outcome script over {succeed, fail, panic} up to length 4 (quick) / 5 (thorough) "
          "run sequentially and with one thread per outcome behind a barrier, on a cell with a tracked seed "
@@ -255,16 +255,16 @@ PROPS["C15"] = dict(
     level_note="Trusted: crossbeam Select::ready/try_recv/disconnect semantics as modelled, the watcher keeps "
                "its EventSender (modelled), /proc/self/task sampling (1 tick = 10 ms; threshold: more than "
                "1 tick in the window = busy).",
-    gen=["HotReloading", "Watcher", "Private"],
+    gen=["HotReloading", "Watcher", "Private", "CacheMap", "LocalMap"],
     model_files=["Ref/Reloader.v"],
     model_targets=["Ref/Reloader.vo"],
-    proof_files=["Proofs/Reloader.v", "Tie/Answers.v", "Tie/Watcher.v", "Props/C15.v"],
+    proof_files=["Proofs/Reloader.v", "Tie/Answers.v", "Tie/Watcher.v", "Tie/Maps.v", "Props/C15.v"],
     proof_targets=["Props/C15.vo"],
     props_module="Props.C15",
     theorems=["C15_code_leaves_the_loop_when_the_cache_is_gone", "C15_code_leaves_the_loop_when_events_are_over",
               "C15_code_watcher_lets_go_when_nobody_listens", "C15_code_senders_learn_about_a_gone_reloader",
               "C15_idle_blocks", "C15_no_spin",
-              "C15_exits_after_drop", "C15_no_accumulation", "C15_old_loop_spins"],
+              "C15_exits_after_drop", "C15_no_accumulation", "C15_old_loop_spins", "C15_code_reloader_is_dropped_first"],
     engines=[("loopdiff", [])],
     rule="loopdiff: idle live caches (in-memory and FileSystem sources) must show sleeping reloader "
          "tasks with 0 ticks; then create/use/drop sequences of 1..3 (quick) / 1..8 (thorough) caches, "
@@ -410,7 +410,8 @@ sys_prop(
      "C03_all_fail_highest_class_error_goes_to_default", "C03_empty_extension_list_goes_to_default", "C03_code_default_extension_list",
      "C03_code_path_of_entry", "C03_code_filesystem_source", "C03_code_builtin_loaders_as_modelled", "C03_parse_loader_ignores_surrounding_whitespace",
      "C03_trim_removes_exactly_the_surrounding_whitespace", "C03_parse_loader_rejects_ill_formed_utf8",
-     "C03_parse_loader_stays_in_range", "C03_string_loader_keeps_the_bytes"],
+     "C03_parse_loader_stays_in_range", "C03_string_loader_keeps_the_bytes",
+     "C03_code_load_from_source_has_one_path"],
     ["Error", "Asset", "Key", "Flags", "Dirs", "Loaders", "Private", "Fs"], ["loader-depends-on-delivery", "filesystem-load-differs"], mode="cold",
     extra_engines=[("loaddiff", [])])
 PROPS["C03"]["model_files"] = PROPS["C03"]["model_files"] + ["Ref/Utf8.v", "Ref/Loaders.v", "Corr/LoadCheck.v"]
@@ -583,7 +584,8 @@ PROPS["C12"] = dict(
               "C12_code_every_event_reaches_the_table",
               "C12_id_of_path_inverts_path_of", "C12_root_is_the_empty_directory_entry",
               "C12_ids_and_paths_round_trip", "C12_outside_every_root_is_no_event",
-              "C12_events_name_the_entry", "C12_events_name_the_parent", "C12_code_path_of_entry"],
+              "C12_events_name_the_entry", "C12_events_name_the_parent", "C12_code_path_of_entry",
+              "C12_code_watcher_keeps_the_roots_as_given"],
     engines=[("watchdiff", [])],
     rule="watchdiff: a real temporary tree (nested dirs, files with / without extension, unicode and spaces, "
          "two dots, hidden files, a dotted directory); notifications for the roots themselves, every entry, "
